@@ -34,6 +34,8 @@ def run(ctx):
     hist.run(ctx, res, 'C07')       # composition: histories through the public API against the reference model (rules/hist.py)
     from rules import scale
     scale.run(ctx, res, 'C07')      # the same on graphs whose collections have the sizes the tree names (rules/scale.py)
+    from rules import genproto
+    genproto.run(ctx, res, 'C07')      # generator protocol: suspended / interleaved / abandoned generators, a fault inside one (rules/genproto.py)
     hist.run_sequences(ctx, res, "C07", "universes", 4 if ctx.thorough else 3, small=True)
     common.vacuity(res, "SEQUENCE", 500)
     hist.lifetime_traversals(ctx, res, "C07")
